@@ -310,6 +310,12 @@ Definition prefixes_of (l : list str) : list (list str) :=
 Definition pruned (excl_dirs : list path) (rel : list str) : bool :=
   existsb (fun p => cp_mem p excl_dirs) (prefixes_of rel).
 
+(* The dirs loop, in the order of the code (minstall.py:512-530): a directory listed in exclude_directories is
+   removed from `dirs` - so os.walk never enters it - BEFORE anything at the destination is looked at; only then
+   "already a directory there -> continue", "something else there -> exit", create.  Because the exclusion test
+   does not depend on the destination, the set of walk steps that os.walk still yields is `pruned` above, a
+   function of the exclude list alone; an implementation that consults the destination first would disagree
+   with this model as soon as the excluded directory exists there. *)
 Definition copydir_dir (c : cfg) (dst_dir : path) (excl_dirs : list path) (rel : list str)
            (d : str * N) : M unit :=
   let filepart := rel ++ [fst d] in
